@@ -368,6 +368,9 @@ let () =
     while true do
       let line = input_line ic in
       let toks = List.filter (fun s -> s <> "") (String.split_on_char ' ' line) in
+      (* [unwinding <line>]: the harness runs the line from a destructor while an unrelated
+         panic unwinds; nothing changes for the model *)
+      let toks = (match toks with "unwinding" :: rest -> rest | t -> t) in
       (match toks with
        | [] -> ()
        | "H" :: id :: rest ->
